@@ -4,7 +4,7 @@ import types, collections, logging, itertools, json, os
 from lib import *
 
 PRE_MATCH = r"""From Coq Require Import QArith Floats.
-From IQ Require Import Intervals Junctions Assigner AssignerEnds AssignerMatch AssignerMatchFloat.
+From IQ Require Import Intervals Junctions AssignerDefs AssignerEndsDefs AssignerMatch AssignerMatchFloat.
 From IQ.gen Require Import Tables Prims.
 Open Scope Z_scope.
 (* (params, minimal_intron_absence_overlap, resolve_ambiguous, isoforms, read exons, polyA info, whether the spec applies, implementation output) *)
@@ -148,24 +148,27 @@ def run_match(ctx, quick):
         cases.append(match_case(C, P, P.minimal_intron_absence_overlap, P.resolve_ambiguous.name, [[(1000, 1100), (2000, 3000)], [(1050, 1100), (2000, 2100), (2500, 2600)]], ["+", "+"],
                                 [(1050, 1100), (2000, 2080)], (-1, -1, -1, -1), "corpus/full-length-read-resolved-by-nucleotide-score/" + m))
     mism, viol = ctx.corr("assign_to_isoform", PRE_MATCH, cases, shard=150, ctype="T", nontrivial=lambda o: o["impl"][0] == "ok" and bool(o["impl"][1][1]))
-    # which clause fails, per candidate source isoform (Coq's verdict codes: 10 + clause)
+    # which clause fails, per candidate source isoform (Coq's verdict codes: 10 + clause), and which isoforms are profile-compatible
     KEY = "C01:full-length-read-resolved-by-nucleotide-score"
     listed = any(f.get("key") == KEY for f in known_findings().get("findings", []) if isinstance(f, dict))
     term_of = {id(o): t for t, o in cases}
     codes = coq_codes(ctx, [term_of[id(o)] for o in viol]) if viol else []
     other = []; n_key = 0
     for o, cd in zip(viol, codes):
-        o["verdict_codes"] = cd
-        bad = [c for c in (cd or []) if c >= 10]
-        if cd is not None and bad and all(c == 13 for c in bad):
-            # only clause 3 fails: every reported isoform is compatible, the type is consistent, but an isoform all of whose introns the read spans is not
-            # reported - the nucleotide-score resolution kept the isoform(s) that explain the read's bases better
+        o["verdict_codes"], o["profile_compatible"] = cd if cd else (None, None)
+        vc, comp = o["verdict_codes"], o["profile_compatible"]
+        bad = [c for c in (vc or []) if c >= 10]
+        # structural key: ONLY clause 3 fails (consistent type, every reported isoform compatible), and every isoform T the read is full-length for but
+        # that is not reported is profile-compatible in the model, i.e. it reached resolve_by_nucleotide_score and was dropped there (score(T)*1.5 < best)
+        dropped = [i for i, c in enumerate((vc or [])[1:]) if c == 13]
+        if vc is not None and bad and all(c == 13 for c in bad) and dropped and all(i in (comp or []) for i in dropped):
             n_key += 1
-            if listed: ctx.violation(KEY, "assign_to_isoform: a read spanning all introns of T is resolved to a better covered compatible isoform, T is not reported", {"correspondence": "assign_to_isoform", "case": o})
+            if listed: ctx.violation(KEY, "assign_to_isoform: a read spanning all introns of T is resolved to a better covered compatible isoform (resolve_by_nucleotide_score), T is not reported",
+                                     {"correspondence": "assign_to_isoform", "case": o})
         else: other.append(o)
     if n_key and not listed:
-        ctx.notes.append("assign_to_isoform: %d case(s) violate only clause 3 of assignment_ok (full-length for T, T not reported because resolve_by_nucleotide_score prefers a better covered compatible isoform): "
-                         "reported to the coordinator as known-finding candidate %s; not counted as violation until the key is listed, e.g. %s" % (n_key, KEY, json.dumps([o for o in viol if o not in other][0], default=str)[:700]))
+        ctx.notes.append("assign_to_isoform: %d case(s) violate only clause 3 of assignment_ok (full-length for T, T dropped by resolve_by_nucleotide_score): known-finding candidate %s, "
+                         "not counted as violation until the key is listed" % (n_key, KEY))
     ctx.corr_report("assign_to_isoform", mism, other)
     return dict(cases=len(cases), types=dict(hist), clause3_only=n_key)
 
@@ -178,18 +181,31 @@ Definition codes (c:T) : list Z :=
   | Ok (ty, ms) => let ann := map (fun t => (i_id t, i_exons t)) isos in let rep := map fst ms in
                    vcode (judge P ann (mkRC rex None ty rep)) :: map (fun t => vcode (judge P ann (mkRC rex (Some (i_id t)) ty rep))) isos
   end.
+(* the isoforms whose profiles are compatible with the read (containing, overlapping, intron profile equal in the read's range) *)
+Definition compat (c:T) : list Z :=
+  let '(P, absd, arm, isos, rex, pa, out) := c in
+  match mk_gene isos with
+  | Some g => let r := mkRead rex pa in
+              match intron_rprof P absd g r, split_rprof P g r with
+              | Ok ri, Ok rs => find_matching (intron_prof g) g ri (find_overlapping g rs (find_containing P g r (ids_of g)))
+              | _, _ => [] end
+  | None => [] end.
 """
 def coq_codes(ctx, terms):
+    """per case: (verdict codes [source None, isoform 0, 1, ...], profile-compatible isoform ids)"""
     import re, shutil
     d = os.path.join(ctx.scratch, "match_codes"); os.makedirs(d, exist_ok=True)
     with open(os.path.join(d, "codes.v"), "w") as f:
-        f.write("From IQ Require Import CorrSupport.\n" + PRE_MATCH + PRE_CODES + "Definition cases : list T := [\n" + ";\n".join(terms) + "].\nEval vm_compute in (map codes cases).\n")
+        f.write("From IQ Require Import CorrSupport.\n" + PRE_MATCH + PRE_CODES + "Definition cases : list T := [\n" + ";\n".join(terms) + "].\n"
+                "Eval vm_compute in (map codes cases).\nEval vm_compute in (map compat cases).\n")
     rc, out = sh(["timeout", "300", "coqc", "-Q", COQ, "IQ", os.path.join(d, "codes.v")], timeout=330)
     shutil.rmtree(d, ignore_errors=True)
-    m = re.search(r"=\s*(\[.*\])\s*:\s*list", out, re.S)
-    if rc != 0 or not m:
+    parts = re.findall(r"=\s*(\[.*?\])\s*:\s*list \(list Z\)", out, re.S)
+    if rc != 0 or len(parts) != 2:
         ctx.broken("assign_to_isoform:codes", "coqc failed on the verdict-code file: " + out[-500:]); return [None] * len(terms)
-    inner = m.group(1).strip()[1:-1]
-    lists = re.findall(r"\[([^\[\]]*)\]", inner)
-    res = [[int(x) for x in re.findall(r"-?\d+", l)] for l in lists]
-    return res if len(res) == len(terms) else [None] * len(terms)
+    def lists(txt):
+        inner = txt.strip()[1:-1]
+        return [[int(x) for x in re.findall(r"-?\d+", l)] for l in re.findall(r"\[([^\[\]]*)\]", inner)]
+    a, b = lists(parts[0]), lists(parts[1])
+    if len(a) != len(terms) or len(b) != len(terms): return [None] * len(terms)
+    return list(zip(a, b))
